@@ -60,6 +60,9 @@ pub async fn run_socket_worker(
     server_start_instant: ServerStartInstant,
     worker_index: usize,
 ) -> anyhow::Result<()> {
+    #[cfg(feature = "verif")]
+    aquatic_common::verif_fault!("ws.socket.start");
+
     #[cfg(feature = "metrics")]
     WORKER_INDEX.with(|index| index.set(worker_index));
 
@@ -180,6 +183,9 @@ pub async fn run_socket_worker(
                         control_message_senders,
                         connection_handles
                     ) async move {
+                        #[cfg(feature = "verif")]
+                        aquatic_common::verif_fault_basic!("ws.socket.conn");
+
                         let runner = ConnectionRunner {
                             config,
                             access_list,
